@@ -13,8 +13,8 @@ LEVEL_TEXT = ("Every input is judged by an independent recursive-descent RFC 825
               "keys, finite numbers and depth <= 512 must be accepted with the identical tree through load(istream), load(range), prefix load and "
               "operator>> under a comma-decimal locale; whatever cppcms accepts must be accepted by the reference extended with the three tolerated "
               "leniencies (// comments, stream-extraction number forms, trailing comma) with the identical tree, repeated keys and depth > 512 must be "
-              "refused, a failed load must leave the target untouched.  API-built trees are saved compact/readable under hostile stream and global "
-              "locales and must give strict JSON with the same strings and numbers within 16 digits, exact from the second round on.  get_value<T> is "
+              "refused, a failed load must leave the target untouched.  API-built trees are saved compact/readable under generated hostile stream and global "
+              "locales (custom numpunct/ctype/num_put facets, every combination also in a fixed grid; the stream's locale must be unchanged afterwards) and must give strict JSON with the same strings and numbers within 16 digits, exact from the second round on.  get_value<T> is "
               "compared with a long-double representability test for 12 integer types, float, double, long double.")
 LEVEL_NOTE = ("Sampling, not proof.  Trusts the 250-line reference parser (cross-checked against Python's json module on the fuzz corpus and on the generated "
               "documents of each run) and glibc strtod.  Rejection of `01`, `//` comments and trailing commas is deliberately not demanded.  Stream "
@@ -24,7 +24,10 @@ DESIGN_REF = "3/C11"
 RULE = ("parse (libFuzzer): any byte string up to 16 KiB (one unit 40 KiB); a case counts as non-trivial when the reference parser finds it "
         "well-formed (accepted / repeated key / too deep / out-of-range number) or read at least three tokens before the malformation. "
         "docs (rapidcheck): documents printed from generated trees, 40% with one byte replaced/inserted/deleted; same rule. "
-        "roundtrip (rapidcheck): API-built trees; non-trivial = depth >= 2 and a non-ASCII string or a non-integer number. "
+        "roundtrip (rapidcheck): API-built trees x {compact, readable} x locale built from custom facets (decimal point . , other; separator , . blank '; "
+        "grouping none 3 2 3-2 1; true/false names; optional digit-mangling ctype / '#' num_put) on the stream, in one unit also as the global locale; "
+        "non-trivial = the locale differs from classic AND a number with >= 4 integer digits is written without exponent (classic-locale cases: depth >= 2 "
+        "and a non-ASCII string or a non-integer number). grid: all 2x2x3x4x5x2x4 locale combinations once over a fixed tree. "
         "extract: non-trivial = fractional or |x| > 127. Distinct = hash of the document bytes / tree dump + mode / number bits.")
 
 HERE = os.path.dirname(os.path.dirname(os.path.abspath(__file__)))
@@ -65,8 +68,15 @@ def units(bins, tier, seed):
         n_units, n = p[key]
         for i in range(n_units):
             k += 1
-            rc.append(Unit("c11_values.%s%d" % (name, i), [b, "--only", name],
-                           env={"RC_PARAMS": rc_params(seed * 1000 + 10 * k, n, size), "C11_XCHECK": "1", "ASAN_OPTIONS": _asan()}, group=name, timeout=5400))
+            env = {"RC_PARAMS": rc_params(seed * 1000 + 10 * k, n, size), "C11_XCHECK": "1", "ASAN_OPTIONS": _asan()}
+            uname = "c11_values.%s%d" % (name, i)
+            if name == "roundtrip" and i == n_units - 1:
+                # the dedicated (single-threaded) unit that also installs the generated locale as the *global* C++ locale around save()/load()
+                env["C11_GLOBAL"] = "1"
+                uname = "c11_values.roundtripg%d" % i
+            rc.append(Unit(uname, [b, "--only", name], env=env, group=name, timeout=5400))
+    # every combination of the locale dimension once over a fixed tree (seed-independent)
+    rc.append(Unit("c11_values.grid0", [b, "--grid"], env={"ASAN_OPTIONS": _asan()}, group="grid", timeout=5400))
     # interleaved so that the evidence samples (first 12 over the units in order) show every kind of case
     by = {}
     for u in rc:
@@ -75,7 +85,7 @@ def units(bins, tier, seed):
     while fz or any(by.values()):
         if fz:
             us.append(fz.pop(0))
-        for g in ("roundtrip", "docs", "extract"):
+        for g in ("roundtrip", "docs", "extract", "grid"):
             if by.get(g):
                 us.append(by[g].pop(0))
     # regression cases of reported defects run (and print KNOWN-FINDING / must pass once fixed) as soon as known_findings.json lists their signature;
@@ -218,7 +228,7 @@ def _cross_check(res, units_, bins):
 
 def floor(tier):
     p = QUICK if tier == "quick" else THOROUGH
-    return {"parse": p["fuzz_units"] * p["fuzz_runs"] // 2, "roundtrip": p["rt"][0] * p["rt"][1], "docs": p["docs"][0] * p["docs"][1], "extract": p["ex"][0] * p["ex"][1]}
+    return {"grid": 1921, "parse": p["fuzz_units"] * p["fuzz_runs"] // 2, "roundtrip": p["rt"][0] * p["rt"][1], "docs": p["docs"][0] * p["docs"][1], "extract": p["ex"][0] * p["ex"][1]}
 
 
 def run(tier, seed):
@@ -266,6 +276,14 @@ MUTATIONS = [
     dict(name="solidus-escape-rejected", edits=[(_J, "\t\t\t\t\t\tcase\t'/':\n", "")]),
     # own: surrogate combination loses the 0x10000 offset
     dict(name="surrogate-combine-offset", edits=[("private/utf_iterator.h", "return ((uint32_t(w1 & 0x3FF) << 10) | (w2 & 0x3FF)) + 0x10000;", "return ((uint32_t(w1 & 0x3FF) << 10) | (w2 & 0x3FF)) + 0x1000;")]),
+    # own (class of seeded C11-3): the writer switches to the C locale only when the decimal point differs (digit grouping / foreign num_put stay active)
+    dict(name="writer-imbue-only-if-decimal-differs", edits=[(_J, "\t\tout.imbue(std::locale(\"C\"));\n",
+                                                             "\t\tif(std::use_facet<std::numpunct<char> >(out.getloc()).decimal_point()!='.') out.imbue(std::locale(\"C\"));\n")]),
+    # own: the writer keeps the caller's non-numpunct facets (only numpunct is replaced): a foreign num_put / ctype still formats the numbers
+    dict(name="writer-imbue-numpunct-only", edits=[(_J, "\t\tout.imbue(std::locale(\"C\"));\n",
+                                                   "\t\tout.imbue(std::locale(original,new std::numpunct<char>()));\n")]),
+    # own: the stream's locale is not put back after writing
+    dict(name="writer-locale-not-restored", edits=[(_J, "\t\tout.imbue(original);\n\n\t}", "\n\t}")]),
     # own: integer extraction compares the wrong way round (fractions truncate silently)
     dict(name="int-extraction-truncates", edits=[("cppcms/json.h", "\t\t\tif(res!=v.number())\t\t\t\t\\", "\t\t\tif(res>v.number())\t\t\t\t\\")]),
     # own: float extraction loses its upper range check
